@@ -187,10 +187,14 @@ Http::One::RequestParser::parseHttpVersionField(Tokenizer &tok)
                 tok.skipOneTrailing(period) &&
                 tok.suffix(majorDigit, CharacterSet::DIGIT) &&
                 tok.skipSuffix(proto)) {
-            const bool multiDigits = majorDigit.length() > 1 || minorDigit.length() > 1;
-            // use '0.0' for unsupported multiple digit version numbers
-            const unsigned int major = multiDigits ? 0 : (*majorDigit.rawContent() - '0');
-            const unsigned int minor = multiDigits ? 0 : (*minorDigit.rawContent() - '0');
+            // RFC 9112 section 2.3: HTTP-version has exactly one DIGIT on each side of the dot
+            if (majorDigit.length() > 1 || minorDigit.length() > 1) {
+                debugs(33, ErrorLevel(), "ERROR: invalid request-line: multi-digit HTTP version number");
+                parseStatusCode = Http::scBadRequest;
+                return false;
+            }
+            const unsigned int major = *majorDigit.rawContent() - '0';
+            const unsigned int minor = *minorDigit.rawContent() - '0';
             msgProtocol_ = Http::ProtocolVersion(major, minor);
             return true;
         }
@@ -304,10 +308,14 @@ Http::One::RequestParser::parseRequestFirstLine()
     if (!skipTrailingCrs(tok))
         return -1;
 
+    const auto sizeBeforeVersion = tok.remaining().length();
     if (!parseHttpVersionField(tok))
         return -1;
 
-    if (!http0() && !skipDelimiter(tok.skipAllTrailing(DelimiterCharacters()), "before protocol version"))
+    // Only an RFC 1945 simple-request has no version field and, hence, no delimiter in front of it.
+    // An explicit "HTTP/0.x" field is delimited like any other version.
+    const auto foundVersionField = tok.remaining().length() != sizeBeforeVersion;
+    if (foundVersionField && !skipDelimiter(tok.skipAllTrailing(DelimiterCharacters()), "before protocol version"))
         return -1;
 
     /* parsed everything before and after the URI */
